@@ -65,6 +65,11 @@ func c07Doc(r *rand.Rand, variant int) (*sbom.Document, string) {
 			fallthrough
 		case 2:
 			ids[i] = "protobom-auto--00000000" + fmt.Sprint(i)
+			if r.Intn(2) == 0 {
+				// look-alikes of the generated identifiers: the reserved prefix with the separator missing, empty
+				// flags, empty tail, doubled or bare separators
+				ids[i] = gen.Pick(r, []string{"protobom-", "protobom-auto", "protobom-auto-", "protobom--", "protobom-x-y-z", "protobom-auto--", "--", "protobom", "protobom---", "protobom-auto----x", "-auto--1"}) + gen.Pick(r, []string{"", "", fmt.Sprint(i)})
+			}
 		default:
 			ids[i] = fmt.Sprintf("n%d", i)
 		}
